@@ -28,7 +28,10 @@ var swaps = map[token.Token][]token.Token{
 	token.ADD: {token.SUB}, token.SUB: {token.ADD},
 }
 
+// MUTGEN_OPS=2 selects the second operator set (dropped clauses of && / ||, deleted if statements without else, deleted
+// select cases, min <-> max) instead of the first.
 func main() {
+	second := os.Getenv("MUTGEN_OPS") == "2"
 	file := os.Args[1]
 	src, err := os.ReadFile(file)
 	if err != nil {
@@ -53,6 +56,39 @@ func main() {
 		}
 		add := func(p, e token.Pos, nw, desc string) {
 			out = append(out, mutant{File: file, Line: line(p), Start: off(p), End: off(e), New: nw, Desc: desc, Func: name})
+		}
+		if second {
+			ast.Inspect(fd.Body, func(n ast.Node) bool {
+				switch x := n.(type) {
+				case *ast.BinaryExpr:
+					if x.Op == token.LAND || x.Op == token.LOR {
+						l := string(src[off(x.X.Pos()):off(x.X.End())])
+						r := string(src[off(x.Y.Pos()):off(x.Y.End())])
+						add(x.Pos(), x.End(), l, fmt.Sprintf("drop right clause of %s", x.Op))
+						add(x.Pos(), x.End(), r, fmt.Sprintf("drop left clause of %s", x.Op))
+					}
+				case *ast.IfStmt:
+					if x.Else == nil && x.Init == nil {
+						add(x.Pos(), x.End(), "", "delete if statement")
+					}
+				case *ast.SelectStmt:
+					if len(x.Body.List) >= 2 {
+						for _, c := range x.Body.List {
+							add(c.Pos(), c.End(), "", "delete select case")
+						}
+					}
+				case *ast.CallExpr:
+					if id, ok := x.Fun.(*ast.Ident); ok && (id.Name == "min" || id.Name == "max") {
+						nw := "max"
+						if id.Name == "max" {
+							nw = "min"
+						}
+						add(id.Pos(), id.End(), nw, id.Name+" -> "+nw)
+					}
+				}
+				return true
+			})
+			continue
 		}
 		ast.Inspect(fd.Body, func(n ast.Node) bool {
 			switch x := n.(type) {
